@@ -236,7 +236,6 @@ RunSplitter ==
     /\ pc = "run" /\ cs.st # "chunker"
     /\ out' = SplitText(cs.text, SepsOf(cs.st), cs.sz, cs.ov)
     /\ pc' = "done"
-    /\ Emit(out')
     /\ UNCHANGED <<cs, i>>
 
 \* FixedSizeChunker: parameter guard, empty text, then the loop
@@ -249,7 +248,6 @@ ChunkerResult ==      \* closed form of what the loop is going to produce (used 
 
 ChunkerStart ==
     /\ pc = "run" /\ cs.st = "chunker"
-    /\ Emit(ChunkerResult)
     /\ IF ChunkerInvalid THEN out' = <<cs.text>> /\ pc' = "done"
        ELSE IF Len(cs.text) = 0 THEN out' = <<>> /\ pc' = "done"
        ELSE out' = <<>> /\ pc' = "loop"
@@ -265,9 +263,14 @@ ChunkerLoop ==
        ELSE /\ pc' = "done" /\ UNCHANGED <<out, i>>
     /\ UNCHANGED cs
 
-Next == RunSplitter \/ ChunkerStart \/ ChunkerLoop
+Step == RunSplitter \/ ChunkerStart \/ ChunkerLoop
+\* the corpus line is printed once per expanded "run" state (the fairness condition below is
+\* stated on Step, so evaluating ENABLED for it prints nothing)
+Next == \/ RunSplitter /\ Emit(out')
+        \/ ChunkerStart /\ Emit(ChunkerResult)
+        \/ ChunkerLoop
 Spec == Init /\ [][Next]_vars
-FairSpec == Spec /\ WF_vars(Next)
+FairSpec == Spec /\ WF_vars(Step)
 
 -----------------------------------------------------------------------------
 (* What TLC checks                                                         *)
